@@ -25,6 +25,108 @@ func checkC03(c *Ctx, r *Report) {
 	c03d(c, r)
 	c03e(c, r)
 	c03f(c, r)
+	c03g(c, r)
+}
+
+// C03.g — the three Digraph stages are chained: Read = DR closed under reads, Follow = Read closed under includes,
+// LA = Follow closed under lookback; each stage's relation comes from the matching constructor.
+func c03g(c *Ctx, r *Report) {
+	const clause = "C03.g"
+	type stage struct {
+		fn, rel, seed, out string
+	}
+	for _, st := range []stage{
+		{"CalcReadSet", "CalcAllReadRelations", ".DRSet", "&$lalr.ReadSet"},
+		{"CalcFollowSet", "CaclIncludes", ".ReadSet", "&$lalr.FollowSet"},
+		{"CalcLookAheadSet", "CalcLookbacks", ".FollowSet", "&$Set"},
+	} {
+		f := c.need(r, clause, "LALR", "LALR1", st.fn)
+		if f == nil {
+			continue
+		}
+		info := f.Pkg.TypesInfo
+		defs := newDefs(info)
+		defs.scan(f.Decl.Body)
+		pc := &pathCtx{info: info, defs: defs, root: f.Decl.Body}
+		var call *ast.CallExpr
+		n := 0
+		ast.Inspect(f.Decl.Body, func(nd ast.Node) bool {
+			if cl, ok := nd.(*ast.CallExpr); ok {
+				if fn := callee(info, cl); fn != nil && fn.Name() == "Digraph" {
+					call = cl
+					n++
+				}
+			}
+			return true
+		})
+		if call == nil || n != 1 || len(call.Args) != 4 {
+			r.Undecided(clause, "R1 PROVENANCE", f.Name+"/digraph-stage", c.pos(f.Decl.Pos()), "expected exactly one Digraph(X, R, F', &F) call")
+			continue
+		}
+		rel, seed, out := pc.path(call.Args[1]), pc.path(call.Args[2]), pc.path(call.Args[3])
+		ok := strings.HasSuffix(rel, "."+st.rel+"()") && strings.HasSuffix(seed, st.seed) && out == st.out
+		r.Check(ok, clause, "R1 PROVENANCE", f.Name+"/digraph-stage", c.pos(call.Pos()),
+			fmt.Sprintf("closes %s under %s() into %s", strings.TrimPrefix(st.seed, "."), st.rel, strings.TrimPrefix(st.out, "&$")),
+			fmt.Sprintf("this stage calls Digraph(_, %s, %s, %s); the DeRemer–Pennello pipeline requires the relation %s(), the seed sets %s and the result %s — seeding from another stage's sets loses (or invents) lookaheads for particular grammar shapes only", rel, seed, out, st.rel, st.seed, st.out))
+	}
+	// the relation constructors use the matching per-transition function for every transition
+	for _, pr := range [][2]string{{"CalcAllReadRelations", "calcReadsRelation"}, {"CaclIncludes", "CaclIncludeRelation"}} {
+		f := c.need(r, clause, "LALR", "LALR1", pr[0])
+		if f == nil {
+			continue
+		}
+		info := f.Pkg.TypesInfo
+		ok := false
+		ast.Inspect(f.Decl.Body, func(nd ast.Node) bool {
+			rs, isR := nd.(*ast.RangeStmt)
+			if !isR || rs.Key == nil {
+				return true
+			}
+			uses, appends := false, false
+			ast.Inspect(rs.Body, func(m ast.Node) bool {
+				if cl, isC := m.(*ast.CallExpr); isC {
+					if fn := callee(info, cl); fn != nil && fn.Name() == pr[1] && len(cl.Args) == 1 && identObj(info, cl.Args[0]) == identObj(info, rs.Key) {
+						uses = true
+					}
+					if builtinName(info, cl) == "append" && cl.Ellipsis.IsValid() {
+						appends = true
+					}
+				}
+				return true
+			})
+			exits := false
+			ast.Inspect(rs.Body, func(m ast.Node) bool {
+				if br, isB := m.(*ast.BranchStmt); isB && (br.Tok.String() == "break" || br.Tok.String() == "continue") {
+					exits = true
+				}
+				return true
+			})
+			if uses && appends && !exits {
+				ok = true
+			}
+			return true
+		})
+		r.Check(ok, clause, "R2 COVERAGE", f.Name, c.pos(f.Decl.Pos()), "collects "+pr[1]+"(t) for every nonterminal transition t, unconditionally", "does not collect "+pr[1]+"(t) for every nonterminal transition")
+	}
+	// stage order in ComputeLALR
+	if f := c.need(r, clause, "LALR", "", "ComputeLALR"); f != nil {
+		info := f.Pkg.TypesInfo
+		var seq []string
+		ast.Inspect(f.Decl.Body, func(nd ast.Node) bool {
+			if cl, ok := nd.(*ast.CallExpr); ok {
+				if fn := callee(info, cl); fn != nil {
+					switch fn.Name() {
+					case "BuildTrans", "CalcDR", "CalcReadSet", "CalcFollowSet", "CalcLookAheadSet", "GenTable":
+						seq = append(seq, fn.Name())
+					}
+				}
+			}
+			return true
+		})
+		got := strings.Join(seq, ",")
+		r.Check(got == "BuildTrans,CalcDR,CalcReadSet,CalcFollowSet,CalcLookAheadSet,GenTable", clause, "R2 ORDER", f.Name+"/stage-order", c.pos(f.Decl.Pos()),
+			"transitions, DR, Read, Follow, LA are computed in this order, each once, before the table", "lookahead stages run as `"+got+"`")
+	}
 }
 
 var transitionFnFields = []string{"GoToMap", "GoTo", "ItemCl", "to"}
